@@ -424,46 +424,62 @@ def encode_number_facts(program, n, signed, res):
     facts['conv'] = conv
     r1 = norm_rows(rows, [{f: Q for f in qf}])
     rr = [(k, gs, v, ln) for (k, gs, v, ln) in r1 if k in ('return', 'raise')]
-    # row 1: value is None
-    if rr and rr[0][0] == 'return' and rr[0][1] == (none_cond,) and sym.is_const(rr[0][2]):
-        facts['na'] = rr[0][2][1]
-        rest = rr[1:]
-    else:
-        facts['problems'].append('first decision is not `value is None -> constant`')
-        rest = rr
-    # row 2: range raise before any other return
-    if rest and rest[0][0] == 'raise':
-        g = [x for x in rest[0][1] if x != sym.mk_not(none_cond)]
-        if len(g) == 1:
-            facts['interval'] = interval_of(g[0], Q)
-        facts['raise_type'] = _exc_name(rest[0][2])
-        facts['order_ok'] = all(r[0] == 'return' for r in rest[1:])
-        rets = rest[1:]
-    else:
-        rets = rest
-    # return value
-    if len(rets) == 1:
-        v = rets[0][2]
-        if v == Q:
-            facts['wrap'] = 0
+    # the residual as an exact piecewise function of the tick count q over all integers (piece.py): any spelling of the range test, of the
+    # two's-complement step (conditional add, mask, modulo) and of the order of the rows gives the same pieces
+    from . import piece
+    INF = piece.INF
+    try:
+        pn = piece.pieces(rr, Q, env={none_cond: True, sym.mk_not(none_cond): False}, exc_name=_exc_name)
+        if len(pn) == 1 and pn[0][2][0] == 'return' and isinstance(pn[0][2][1], tuple) and pn[0][2][1][0] == 0:
+            facts['na'] = pn[0][2][1][1]
         else:
-            for w in (cn(('ite', ('cmp', '<', Q, C(0)), ('binop', '+', C(1 << n), Q), Q)),):
-                if v == w:
-                    facts['wrap'] = 1 << n
-            if facts['wrap'] is None and v[0] == 'ite':
-                # generic: (K + Q if Q < 0 else Q)
-                c, a, b = v[1], v[2], v[3]
-                if c == cn(('cmp', '<', Q, C(0))) and b == Q and a[0] == 'binop' and a[1] == '+' and Q in (a[2], a[3]):
-                    k = a[2] if a[3] == Q else a[3]
-                    if sym.is_const(k):
-                        facts['wrap'] = k[1]
-            if facts['wrap'] is None and v[0] == 'binop' and v[1] == '&' and Q in (v[2], v[3]):
-                k = v[2] if v[3] == Q else v[3]
-                if sym.is_const(k) and k[1] == (1 << n) - 1:
-                    facts['wrap'] = 1 << n
-        facts['ret'] = v
-    else:
-        facts['problems'].append(f"{len(rets)} returning rows after the range test")
+            facts['problems'].append('an absent value is not mapped to one constant: ' + '; '.join(piece.describe(pn))[:200])
+        ps = piece.pieces(rr, Q, env={none_cond: False, sym.mk_not(none_cond): True}, exc_name=_exc_name)
+    except piece.NotPiecewise as e:
+        facts['problems'].append(f"residual is not a piecewise-affine function of round(value/resolution): {e}")
+        return facts
+    facts['pieces'] = piece.describe(ps)
+    rets = [p for p in ps if p[2][0] == 'return']
+    others = [p for p in ps if p[2][0] != 'return']
+    if not rets:
+        facts['problems'].append('no value is ever returned: ' + '; '.join(facts['pieces'])[:200])
+        return facts
+    contiguous = all(a_[1] + 1 == b_[0] for a_, b_ in zip(rets, rets[1:]))
+    lo, hi = rets[0][0], rets[-1][1]
+    tails_raise = all(p[2][0] == 'raise' for p in others) and all(p[1] < lo or p[0] > hi for p in others)
+    if lo == -INF or hi == INF or not contiguous or not tails_raise:
+        # no (complete) range test: some out-of-range tick count is encoded
+        facts['interval'] = None
+        facts['order_ok'] = False
+        facts['raise_type'] = None
+        facts['wrap'] = None
+        facts['witness'] = '; '.join(facts['pieces'])[:300]
+        return facts
+    facts['interval'] = (lo, hi)
+    kinds = {p[2][1] for p in others}
+    facts['raise_type'] = kinds.pop() if len(kinds) == 1 else sorted(kinds)
+    facts['order_ok'] = True
+    # returned value: q itself for q >= 0, q + K for q < 0
+    wrap = 0
+    okshape = True
+    for (l, u, r) in rets:
+        val = r[1]
+        if not (isinstance(val, tuple) and val[0] == 1):
+            okshape = False
+            continue
+        if l >= 0:
+            if val[1] != 0:
+                okshape = False
+        elif u < 0:
+            if wrap in (0, val[1]):
+                wrap = val[1]
+            else:
+                okshape = False
+        else:
+            okshape = False
+    facts['wrap'] = wrap if okshape else None
+    if not okshape:
+        facts['witness'] = '; '.join(facts['pieces'])[:300]
     return facts
 
 def decoder_na(program, n, signed):
@@ -601,10 +617,29 @@ def help_siblings(chk, program, rule='HELP-SIB'):
             if isinstance(n, ast.Call) and isinstance(n.func, ast.Attribute) and n.func.attr in ('pack', 'unpack') and n.args and isinstance(n.args[0], ast.Constant):
                 out[n.func.attr] = n.args[0].value
         return out
-    df, ef = struct_formats('decode_float'), struct_formats('encode_float')
-    chk.check(df.get('pack') == ef.get('unpack') and df.get('unpack') == ef.get('pack') and df.get('pack') in ('<I', '=I', 'I') and df.get('unpack') in ('<f', '=f', 'f'),
-              rule, 'float-formats', file=UT, line=hs['decode_float'].lineno, expected={'decode': {'pack': '<I', 'unpack': '<f'}, 'encode': {'pack': '<f', 'unpack': '<I'}},
-              found={'decode': df, 'encode': ef})
+    # decided on the interpreted helpers: decode_float of a raw field whose 32 bits are symbols must be the IEEE single with exactly that bit
+    # pattern, encode_float of a single with symbolic bits must be the integer with those bits -- whatever calls (struct, to_bytes, from_bytes) are used
+    from . import absint as A
+    sem = None
+    try:
+        funcs = {q: f for q, f in program.mod('utils').defs.items() if '.' not in q}
+        in_range = lambda op, a, b, node: isinstance(op, (ast.GtE, ast.LtE, ast.Eq))      # the decoded value lies inside [min, max]
+        d = A.Interp(functions=funcs, cmp_oracle=in_range).call_function(hs['decode_float'], [A.sym_int('raw', 64), A.AInt(0), A.AInt(32), A.AFloat([('min', k) for k in range(32)]), A.AFloat([('max', k) for k in range(32)])])
+        e = A.Interp(functions=funcs).call_function(hs['encode_float'], [A.AFloat([('f', k) for k in range(32)])])
+        okd = isinstance(d, A.AFloat) and d.width == 32 and list(d.bits) == [('raw', k) for k in range(32)]
+        oke = isinstance(e, A.AInt) and e.vec() is not None and A.B.trim(e.vec()) == [('f', k) for k in range(32)]
+        sem = (okd and oke, {'decode_float(raw)': repr(d), 'encode_float(f)': repr(e)})
+    except (A.Unknown, A.RaiseSignal, AnalysisError) as u:
+        chk.unit('float_helpers_not_interpretable', str(u))
+    if sem is not None:
+        chk.check(sem[0], rule, 'float-formats', file=UT, line=hs['decode_float'].lineno, expected='decode_float: the single whose bit pattern is raw[0:32]; encode_float: the integer whose bits are the single\'s bit pattern',
+                  found=sem[1] if not sem[0] else 'ok')
+    else:
+        df, ef = struct_formats('decode_float'), struct_formats('encode_float')
+        if df.get('pack') == ef.get('unpack') and df.get('unpack') == ef.get('pack') and df.get('pack') in ('<I', '=I', 'I') and df.get('unpack') in ('<f', '=f', 'f'):
+            chk.ok(rule, 'float-formats', file=UT, line=hs['decode_float'].lineno, found={'decode': df, 'encode': ef})
+        else:
+            chk.unknown(rule, 'float-formats', f"float helpers neither interpretable nor of the recognised struct shape: {df} / {ef}", UT, hs['decode_float'].lineno)
     def epoch(name):
         fn = hs.get(name)
         if fn is None:
@@ -652,25 +687,38 @@ def _strip_int(t, p):
     return subst(t, mp)
 
 def _affine_attrs(t):
-    """a.hour*3600 + a.minute*60 + a.second -> {'hour':3600,...}"""
-    out = {}
-    def leaves(x):
-        if x[0] == 'binop' and x[1] == '+':
-            return leaves(x[2]) + leaves(x[3])
-        return [x]
-    for l in leaves(t):
-        k = 1
-        x = l
-        if x[0] == 'binop' and x[1] == '*':
-            if sym.is_const(x[2]):
-                k, x = x[2][1], x[3]
-            elif sym.is_const(x[3]):
-                k, x = x[3][1], x[2]
+    """an integer-affine form over the attributes of the value: a.hour*3600 + a.minute*60 + a.second, (a.hour*60 + a.minute)*60 + a.second, ...
+    -> {'hour': 3600, 'minute': 60, 'second': 1} (None when the term is not affine in attributes of the value or has a constant part)"""
+    def aff(x):
+        if sym.is_const(x) and isinstance(x[1], int) and not isinstance(x[1], bool):
+            return {}, x[1]
         if x[0] == 'attr' and x[1] == V:
-            out[x[2]] = out.get(x[2], 0) + k
-        else:
+            return {x[2]: 1}, 0
+        if x[0] == 'call' and x[1] == ('name', 'int') and len(x[2]) == 1:
+            return aff(x[2][0])
+        if x[0] == 'binop' and x[1] in ('+', '-'):
+            l, r = aff(x[2]), aff(x[3])
+            if l is None or r is None:
+                return None
+            sg = 1 if x[1] == '+' else -1
+            co = dict(l[0])
+            for k, v in r[0].items():
+                co[k] = co.get(k, 0) + sg * v
+            return co, l[1] + sg * r[1]
+        if x[0] == 'binop' and x[1] == '*':
+            l, r = aff(x[2]), aff(x[3])
+            if l is None or r is None:
+                return None
+            if not l[0]:
+                return {k: v * l[1] for k, v in r[0].items()}, r[1] * l[1]
+            if not r[0]:
+                return {k: v * r[1] for k, v in l[0].items()}, l[1] * r[1]
             return None
-    return out
+        return None
+    r = aff(t)
+    if r is None or r[1] != 0:
+        return None
+    return {k: v for k, v in r[0].items() if v}
 
 def enc_range_round_only(chk, program):
     """ROUND on encode_number (C02 uses only this clause of the residual)"""
